@@ -90,6 +90,9 @@ type Result struct {
 	Notes      []string            `json:"notes"`
 	Violations []Violation         `json:"violations"`
 	Info       map[string]any      `json:"info"`
+	// FileOffset is added to the shard number in the result file's name, so
+	// that several jobs of one check do not overwrite each other's files.
+	FileOffset int `json:"-"`
 }
 
 func NewResult(prop string) *Result {
@@ -204,7 +207,7 @@ func (r *Result) Write() error {
 	if err != nil {
 		return err
 	}
-	name := filepath.Join(dir, fmt.Sprintf("%s.%d.json", r.Property, i))
+	name := filepath.Join(dir, fmt.Sprintf("%s.%d.json", r.Property, i+r.FileOffset))
 	tmp := name + ".tmp"
 	if err := os.WriteFile(tmp, b, 0o644); err != nil {
 		return err
